@@ -234,10 +234,19 @@ class Build:
             diffs.append("+++ %s (appended)\n%s" % (rel, "".join("+" + l + "\n" for l in add.splitlines())))
         for rel, hf in INJECT_CHILD.items():
             p = os.path.join(self.repo, rel)
-            if not os.path.exists(p) or not os.path.exists(os.path.join(kdir, hf)):
+            if not os.path.exists(p):
                 continue
-            add = '\n#[cfg(%s)]\n#[path = "%s"]\n#[allow(dead_code, unused_imports, unused_macros)]\nmod verif_kani;\n' % (
-                GUARD, os.path.join(kdir, hf))
+            # <x>_harness.rs -> mod verif_kani; further files <x>_harness_<s>.rs -> mod verif_kani_<s>
+            # (so that new obligations can be added without touching - and re-keying - existing files)
+            stem = hf[:-3]
+            files = sorted(f for f in os.listdir(kdir) if f == hf or (f.startswith(stem + "_") and f.endswith(".rs")))
+            add = ""
+            for f in files:
+                suffix = f[len(stem):-3]          # "" or "_<s>"
+                add += '\n#[cfg(%s)]\n#[path = "%s"]\n#[allow(dead_code, unused_imports, unused_macros)]\nmod verif_kani%s;\n' % (
+                    GUARD, os.path.join(kdir, f), suffix)
+            if not add:
+                continue
             with open(p, "a") as fh:
                 fh.write(add)
             diffs.append("+++ %s (appended)\n%s" % (rel, "".join("+" + l + "\n" for l in add.splitlines())))
@@ -378,10 +387,14 @@ def harness_file_of(ob):
     h = ob.get("harness") or ob.get("test") or ""
     if h.startswith("verif_"):
         return h.split("::")[0][len("verif_"):] + ".rs"
-    mod = h.split("::verif_kani::")[0]
+    m = re.match(r"(.*)::verif_kani(_\w+)?::", h)
+    if not m:
+        return None
+    mod, suffix = m.group(1), m.group(2) or ""
     pre = "chess_base/src/" if ob.get("pkg") == "owlchess_base" else "chess/src/"
     rel = pre + mod.replace("::", "/") + ".rs"
-    return INJECT_CHILD.get(rel)
+    hf = INJECT_CHILD.get(rel)
+    return (hf[:-3] + suffix + ".rs") if hf else None
 
 
 def ob_key(build, ob):
@@ -401,6 +414,9 @@ def ob_key(build, ob):
     else:
         hf = harness_file_of(ob)
         parts.append(_file_hash(os.path.join(KANI_DIR, hf)) if hf else "nofile")
+        m = re.match(r"(.*_harness)_\w+\.rs$", hf or "")
+        if m:   # an extension file may use the helpers of the base harness file
+            parts.append(_file_hash(os.path.join(KANI_DIR, m.group(1) + ".rs")))
         for f in SHARED_HARNESS_FILES:
             parts.append(_file_hash(os.path.join(KANI_DIR, f)))
     return sha("\n".join(parts).encode())[:32]
